@@ -1930,8 +1930,8 @@ func handleBreakingRPCSameIdempotencyLevel(
 	current := method.IdempotencyLevel()
 	if previous != current {
 		responseWriter.AddProtosourceAnnotation(
-			method.IdempotencyLevelLocation(),
-			previousMethod.IdempotencyLevelLocation(),
+			withBackupLocation(method.IdempotencyLevelLocation(), method.Location()),
+			withBackupLocation(previousMethod.IdempotencyLevelLocation(), previousMethod.Location()),
 			method.File().Path(),
 			`RPC %q on service %q changed option "idempotency_level" from %q to %q.`,
 			method.Name(),
